@@ -57,6 +57,36 @@ fn normalize(ex: &mut Exec) {
     }
 }
 
+/// Second normalisation: every value becomes a function of (table, row, component), so that two worlds whose
+/// tables have the same row counts hold identical columns and differ only in WHICH identifier sits in which
+/// row (and in the allocator) — equality must then be decided by the identifiers alone.
+fn normalize_by_row(ex: &mut Exec) {
+    for (w, m) in [(Some(&mut ex.w), Some(&mut ex.m)), (ex.aux.as_mut(), ex.maux.as_mut())] {
+        let (Some(w), Some(m)) = (w, m) else { continue };
+        let mut rows: BTreeMap<u8, u32> = BTreeMap::new();
+        for result!(id, a, z, o, b) in w.query(Query::<Views!(entity::Identifier, Option<&mut A>, Option<&Z>, Option<&mut O>, Option<&mut B>)>::new()).iter {
+            let i = idp(id);
+            let mask = (a.is_some() as u8) | (z.is_some() as u8) << 1 | (o.is_some() as u8) << 2 | (b.is_some() as u8) << 3;
+            let r = rows.entry(mask).or_default();
+            let v = |c: u32| 50_000 + (mask as u32) * 1024 + *r * 4 + c;
+            let row = m.ents.get_mut(&i).expect("normalize: unknown entity");
+            if let Some(a) = a {
+                a.set(v(0));
+                row[0] = Some(v(0));
+            }
+            if let Some(o) = o {
+                o.set(v(2));
+                row[2] = Some(v(2));
+            }
+            if let Some(b) = b {
+                b.set(v(3));
+                row[3] = Some(v(3));
+            }
+            *r += 1;
+        }
+    }
+}
+
 #[derive(Clone, Copy, Debug, PartialEq, Eq)]
 pub enum Job {
     /// dst = src.clone()
@@ -202,6 +232,20 @@ pub fn run_job(states: &[StateRef], alphas: &[Vec<Op>], follow_ops: &[Op], job: 
                 out.eq_true = xy;
                 if (xy || yx) && !same {
                     chk.fail(prop, "equal-but-different-contents", format!("a == b: {}, b == a: {}", xy, yx));
+                }
+                // the same pair with values that depend on (table, row) only: identical columns wherever the
+                // row counts agree, so only the identifiers can tell the two worlds apart
+                normalize_by_row(&mut x);
+                normalize_by_row(&mut y);
+                let (xy, yx) = (x.w == y.w, y.w == x.w);
+                if xy != yx {
+                    chk.fail(prop, "not-symmetric (values by row)", format!("a == b: {}, b == a: {}", xy, yx));
+                }
+                let same = snap_vals(&snapshot(&mut x.w)) == snap_vals(&snapshot(&mut y.w));
+                out.same_content |= same;
+                out.eq_true |= xy;
+                if (xy || yx) && !same {
+                    chk.fail(prop, "equal-but-different-contents (values by row)", format!("a == b: {}, b == a: {}", xy, yx));
                 }
                 drop(ManuallyDrop::into_inner(x));
                 drop(ManuallyDrop::into_inner(y));
